@@ -10,6 +10,9 @@ from symx import ModelGap, lift_bool, lift_num, lift_str, sb
 from symframe import regex_language, zand, zor, T, F
 
 
+STR_MAXLEN = 4  # bound of the UTF-8 length encoding (len_bytes)
+
+
 class Col:
     def __init__(self, vals, nulls, kind):
         self.vals, self.nulls, self.kind = list(vals), list(nulls), kind
@@ -145,6 +148,22 @@ class _StrNS:
 
     def ends_with(self, p):
         return self._res(lambda c: Col([z3.SuffixOf(z3.StringVal(p), v) for v in c.vals], c.nulls, "bool"))
+
+    def len_bytes(self):
+        """UTF-8 byte count, exact for strings of at most STR_MAXLEN characters (the bound is added to the input assumptions)"""
+        def g(c):
+            from symx import eng
+
+            out = []
+            for v in c.vals:
+                eng().assume(z3.Length(v) <= STR_MAXLEN)
+                tot = z3.IntVal(0)
+                for k in range(STR_MAXLEN):
+                    code = z3.StrToCode(z3.SubString(v, k, 1))
+                    tot = tot + z3.If(z3.IntVal(k) < z3.Length(v), z3.If(code < 128, 1, z3.If(code < 2048, 2, z3.If(code < 65536, 3, 4))), 0)
+                out.append(tot)
+            return out
+        return self._res(lambda c: Col(g(c), c.nulls, "int"))
 
     def len_chars(self):
         return self._res(lambda c: Col([z3.Length(v) for v in c.vals], c.nulls, "int"))
